@@ -5,7 +5,7 @@ from vlib.common import hexs
 from vlib.decsuite import D, parse_tok, planes_of
 
 THEOREMS = ["C11_dequant_exact", "C11_dequant_explicit", "C11_placement_order", "C11_intradc", "C11_quantizer_update", "C11_dquant_codes"]
-BRIDGES = ["BridgeTables", "BridgeKDequant", "BridgePBlock"]
+BRIDGES = ["BridgeTables", "BridgeKDequant", "BridgePBlock", "BridgePRle"]
 
 
 def one_mb_picture(mode, q, mb):
